@@ -116,12 +116,14 @@ def Preliminary (op : Op α) : Prop :=
 
 end
 
+/-- the bytes of one call, when payloads are byte strings -/
+def opBytes : Op Bytes → Bytes
+  | .write p => p
+  | .readFrom cs => cs.flatten
+  | _ => []
+
 /-- all the bytes a handler wrote, when payloads are byte strings -/
-def writtenBytes (ops : List (Op Bytes)) : Bytes :=
-  (ops.map (fun op => match op with
-    | .write p => p
-    | .readFrom cs => cs.flatten
-    | _ => [])).flatten
+def writtenBytes (ops : List (Op Bytes)) : Bytes := (ops.map opBytes).flatten
 
 /-! ### entity tags -/
 
